@@ -1313,6 +1313,8 @@ def _scope_var_growth(repo, ob, failure):
             ('self-reusing template doubling a <g> attribute', '<svg><specs><g id="a" s="$s$s"><reuse href="#a"/></g></specs><var s="xx"/><reuse href="#a"/></svg>', "err"),
             ('group template instantiating itself, attribute doubling', '<svg><var s="xx"/><specs><g id="a" s="$s$s"><reuse href="#a"/></g></specs><reuse href="#a"/></svg>', "err"),
             ('two group templates instantiating each other, attribute doubling', '<svg><var s="xx"/><specs><g id="a" s="$s$s"><rect wh="1"/><reuse href="#b"/></g><g id="b" s="$s"><reuse href="#a"/></g></specs><reuse href="#a"/></svg>', "err"),
+            ('symbol template instantiating itself, attribute doubling', '<svg><var s="xx"/><specs><symbol id="a" s="$s$s"><reuse href="#a"/></symbol></specs><reuse href="#a"/></svg>', "err"),
+            ('reuse of a reuse that doubles an attribute', '<svg><var s="xx"/><specs><reuse id="b" href="#b" s="$s$s"/></specs><reuse href="#b"/></svg>', "err"),
             ('long literal attribute on a group', '<svg><g data-x="%s"><rect wh="2"/></g></svg>' % long_attr, "ok")]
     for what, doc, want in docs:
         r = run_svgdx(repo, doc, timeout=20)
@@ -1631,3 +1633,23 @@ def _group_attrs_once(repo, ob, failure):
 
 GENERATORS.insert(0, ("C14.group.attributes_evaluated_once", _group_attrs_once))
 GENERATORS.insert(0, ("C15.group.attributes_evaluated_once", _group_attrs_once))
+
+
+def _scoping_instance_attrs(repo, ob, failure):
+    """a reused <g> keeps its own wh / dw / rxy attributes as variables of its content; a reuse of a parameterised reuse works"""
+    import re as _re
+    doc = '<svg><var wh="outer-wh" dw="outer-dw" width="outer-width"/><specs><g id="t" wh="3 4" dw="2"><text text="wh=$wh dw=$dw width=$width"/></g></specs><reuse href="#t"/></svg>'
+    r = run_svgdx(repo, doc, args=("--no-auto-styles",))
+    m = _re.search(r">([^<]*)</text>", r["out"])
+    if r["rc"] == 0 and m and m.group(1) != "wh=3 4 dw=2 width=outer-width":
+        return {"input": doc, "args": ["--no-auto-styles"], "observed": m.group(1), "expected": "wh=3 4 dw=2 width=outer-width"}
+    doc = '<svg><specs><rect id="t" wh="$w 4"/><reuse id="mid" href="#t" w="7"/></specs><reuse href="#mid"/></svg>'
+    r = run_svgdx(repo, doc, args=("--no-auto-styles",))
+    if r["rc"] != 0 or 'width="7" height="4"' not in r["out"]:
+        return {"input": doc, "args": ["--no-auto-styles"], "observed": (r["err"].strip() or r["out"].strip())[-160:], "expected": '<rect width="7" height="4" class="mid t"/>'}
+    return None
+
+
+GENERATORS.insert(0, ("C15.instance.scoping", _scoping_instance_attrs))
+GENERATORS.insert(0, ("C18.instance.scoping", _scoping_instance_attrs))
+GENERATORS.insert(0, ("C18.instance.size_includes", _scoping_instance_attrs))
